@@ -178,7 +178,16 @@ def opDEC (args obs : List String) : Option DecOut :=
           -- `Reader.Skip` gives up on those (DESIGN 0.5); outside the modelled domain
           else if p == .stream ∧ b.length > 4000 ∧ hasExt32Tok (b.length + 1) b then none
           else some s!"model=[{m}] go=[{go}]"
-        some { corr := corr, fails := f10 ++ f13 ++ f18 ++ f19 ++ fAlloc ++ fAlias,
+        -- conforming encodings (`v`: the library's own; `a`: an independent encoder's, any legal widths / key orders / unknown keys):
+        -- by C01_T / C01_alt_T the message such bytes denote is what the decoder model returns, so an answer that differs from it
+        -- (another value, or a rejection) is a wrong answer, not just a model that drifted
+        let fConf := if (cls == "a" || cls == "v") && corr.isSome && m.startsWith "ok" && kind != "crash" && kind != "hang" && kind != "panic" then
+            [s!"C01 a conforming encoding of a {ty} did not decode to the message its fields denote (model, proved equal to the denotation: [{m}]; library: [{go}])",
+             s!"C13 a conforming encoding of a {ty} was not decoded as exactly that message (library: [{go.take 40}])"] ++
+            (if ty == "Message" || ty == "MessageExt" || ty == "Forward" || ty == "Packed" then
+              [s!"C11 full decoding of a conforming {ty} fails or differs from its denotation, so it cannot agree with GetChunk on it"] else [])
+          else []
+        some { corr := corr, fails := f10 ++ f13 ++ f18 ++ f19 ++ fAlloc ++ fAlias ++ fConf,
                branch := s!"dec.{ty}.{ps}.{cls}.{if rv = "F" then "F" else "U"}.{kind}" }
     | _, _ => none
   | _ => none
@@ -437,6 +446,8 @@ def opCID (args obs : List String) : Option DecOut :=
   | [kind, st], [i1, i2, oa, cb, cs, gc] =>
     match parseHex i1, parseHex i2, parseHex cb, parseHex cs, parseHex gc with
     | some id1, some id2, some chB, some chS, some g =>
+      -- a leading `e`: the harness encoded the message (both paths) before it asked for the id; the model has no state that could remember it
+      let st := if st.startsWith "e" then (st.drop 1).toString else st
       let pre : Option (Option Options) :=
         if st == "N" then some none
         else if st == "E" then some (some {})
@@ -512,6 +523,7 @@ def opHIST (op : String) (args obs : List String) : Option DecOut :=
   match op, args with
   | "HRESET", _ => mk none [] "-"
   | "PRIME", _ => mk none [] "-"
+  | "SCRIB", _ => mk none [] "-"
   | "PK", [_, tok] | "CP", [_, tok] =>
     match parseTok tok with
     | some (.node "L" ets) =>
@@ -599,7 +611,9 @@ def opHIST (op : String) (args obs : List String) : Option DecOut :=
       -- on a stream that is a run of well-formed entries the model's result is, by C03_packed / C19_roundtrip,
       -- exactly those entries with their instants: a different answer is a wrong answer
       let f03 := if okAll && m != go then ["C03 UnmarshalPacked did not return exactly the entries (instants, records) the stream holds"] else []
-      mk (if m == go then none else some s!"model=[{m}] go=[{go}]") (f13 ++ f03) (if okAll then "ok" else "err")
+      let f10 := if (main.headD "") == "panic" then
+          [s!"C10 UnmarshalPacked panicked ({" ".intercalate (main.drop 1)}) on a {b.length}-byte stream: every input must yield entries or an error"] else []
+      mk (if m == go then none else some s!"model=[{m}] go=[{go}]") (f13 ++ f03 ++ f10) (if okAll then "ok" else "err")
   | "MM", _ => mk none [] "-"
   | "GCH", [hx] =>
     match opCHUNK ["h", hx] main with
